@@ -967,3 +967,148 @@ Proof.
   - intros k b p Hb Hp. apply alookup_In in Hb. apply H in Hb. cbn in Hb.
     apply andb_prop in Hb as [_ Hb]. rewrite Hp in Hb. now apply N.ltb_lt.
 Qed.
+
+
+(* ------------------------------------------------------------------------------------------ *)
+(* across commits: what was reported as abandoned is never executed later *)
+
+Definition executed_of (x : obs) : list block :=
+  match x with RCommit (CDone e _) => e | _ => [] end.
+Definition no_prune (o : op) : Prop := match o with OPrune _ _ => False | _ => True end.
+
+Lemma commit_inner_views fetch cb : forall fuel st b st' l,
+  commit_inner fuel st fetch b cb = (st', Some l) ->
+  (forall e, In e l -> b_view cb < b_view e) /\
+  (l = [] -> b_view b <= b_view cb) /\ (l <> [] -> last l cb = b).
+Proof.
+  induction fuel as [|k IH]; cbn; intros st b st' l H; [discriminate|].
+  destruct (N.leb_spec (b_view b) (b_view cb)).
+  - injection H as <- <-. repeat split; auto; [intros e []|congruence].
+  - destruct (get st (b_parent b) [] (fetch (b_parent b))) as [st1 r1].
+    destruct r1 as [p|]; [|discriminate].
+    destruct (commit_inner k st1 fetch p cb) as [st2 r2] eqn:E.
+    destruct r2 as [l'|]; [|discriminate]. injection H as <- <-.
+    apply IH in E as (Hv & _ & _). repeat split.
+    + intros e He. apply in_app_or in He as [He|[<-|[]]]; auto.
+    + intros Hn. destruct l'; discriminate.
+    + intros _. apply last_last.
+Qed.
+
+Lemma last_In {A} (l : list A) d : l <> [] -> In (last l d) l.
+Proof.
+  induction l as [|x r IH]; [congruence|]. intros _. destruct r as [|y r']; [now left|].
+  right. apply IH. discriminate.
+Qed.
+
+Lemma commit_views flt s tbl b s' r :
+  ah_keyed (s_store s) -> commit flt s tbl b = (s', r) ->
+  b_view (s_committed s) <= b_view (s_committed s') /\
+  (forall e, In e (executed_of (RCommit r)) -> b_view (s_committed s) < b_view e) /\
+  (forall a, In a (reports (RCommit r)) -> b_view a <= b_view (s_committed s')).
+Proof.
+  intros Hk. unfold commit. destruct (commit_inner _ _ _ _ _) as [st1 r1] eqn:E.
+  pose proof (commit_inner_keyed _ _ _ _ _ _ _ Hk E) as [Hk1 _].
+  destruct r1 as [l|].
+  - destruct (prune_to_height st1 (last l (s_committed s)) (b_view b)) as [st2 forked] eqn:P.
+    intros H; injection H as <- <-. cbn [s_committed executed_of reports].
+    apply commit_inner_views in E as (Hv & Hnil & Hlast).
+    apply prune_views in P as (_ & Hr & _); auto.
+    destruct (list_eq_dec N.eq_dec (map b_hash l) []) as [En|Hne].
+    + assert (l = []) by (destruct l; [auto|discriminate]). subst l. cbn [last].
+      repeat split; try lia; [intros e []|]. intros a Ha. apply Hr in Ha. specialize (Hnil eq_refl). lia.
+    + assert (Hl : l <> []) by (intros ->; now apply Hne).
+      pose proof (last_In l (s_committed s) Hl) as Hin. rewrite (Hlast Hl) in *.
+      repeat split; auto.
+      * apply Hv in Hin. lia.
+      * intros a Ha. apply Hr in Ha. lia.
+  - intros H; injection H as <- <-. cbn. repeat split; try lia; intros ? [].
+Qed.
+
+(* views of everything executed later exceed the view of the committed block now; reports do not *)
+Lemma run_views flt : forall ops s s' xs,
+  Forall no_prune ops -> ah_keyed (s_store s) -> run flt s ops = (s', xs) ->
+  (forall e, In e (flat_map executed_of xs) -> b_view (s_committed s) < b_view e) /\
+  b_view (s_committed s) <= b_view (s_committed s').
+Proof.
+  induction ops as [|o rest IH]; cbn [run]; intros s s' xs Hf Hk H.
+  - injection H as <- <-. split; [intros e []|lia].
+  - destruct (step flt s o) as [s1 x] eqn:S. destruct (run flt s1 rest) as [s2 xs'] eqn:R.
+    injection H as <- <-. inversion Hf; subst.
+    pose proof (step_keyed _ _ _ _ _ Hk S) as (Hk1 & _).
+    destruct (IH _ _ _ H2 Hk1 R) as [He Hm].
+    assert (Hs : b_view (s_committed s) <= b_view (s_committed s1) /\
+                 forall e, In e (executed_of x) -> b_view (s_committed s) < b_view e).
+    { destruct o; cbn [step] in S.
+      - injection S as <- <-. cbn. split; [lia|intros e []].
+      - injection S as <- <-. cbn. split; [lia|intros e []].
+      - destruct (get _ _ _ _). injection S as <- <-. cbn. split; [lia|intros e []].
+      - destruct (extends _ _ _ _ _). injection S as <- <-. cbn. split; [lia|intros e []].
+      - destruct H1.
+      - destruct (commit flt s tbl b) as [s1' r] eqn:C. injection S as <- <-.
+        apply commit_views in C as (? & ? & ?); auto. }
+    destruct Hs as [Hs1 Hs2]. split; [|lia].
+    cbn [flat_map]. intros e Hin. apply in_app_or in Hin as [Hin|Hin]; auto. apply He in Hin. lia.
+Qed.
+
+(* reported as abandoned by one commit, executed by a later one: never the same block *)
+Fixpoint abort_then_exec (xs : list obs) : Prop :=
+  match xs with
+  | [] => True
+  | x :: r => (forall a e, In a (reports x) -> In e (flat_map executed_of r) -> b_view a < b_view e)
+              /\ abort_then_exec r
+  end.
+
+Theorem no_execute_after_abort : forall flt g ops s xs,
+  Forall no_prune ops -> run flt (new_sys g) ops = (s, xs) -> abort_then_exec xs.
+Proof.
+  intros flt g ops. assert (Hk0 : ah_keyed (s_store (new_sys g))) by apply new_store_keyed.
+  revert Hk0. generalize (new_sys g). induction ops as [|o rest IH]; cbn [run]; intros s0 Hk s xs Hf H.
+  - injection H as <- <-. exact I.
+  - destruct (step flt s0 o) as [s1 x] eqn:S. destruct (run flt s1 rest) as [s2 xs'] eqn:R.
+    injection H as <- <-. inversion Hf; subst.
+    pose proof (step_keyed _ _ _ _ _ Hk S) as (Hk1 & _).
+    split; [|eapply IH; eauto].
+    intros a e Ha He. destruct (run_views flt _ _ _ _ H2 Hk1 R) as [Hv _]. apply Hv in He.
+    assert (b_view a <= b_view (s_committed s1)); [|lia].
+    destruct o; cbn [step] in S;
+      try (injection S as <- <-; destruct Ha);
+      try (destruct (get _ _ _ _); injection S as <- <-; destruct Ha);
+      try (destruct (extends _ _ _ _ _); injection S as <- <-; destruct Ha).
+    + destruct H1.
+    + destruct (commit flt s0 tbl b) as [s1' r] eqn:C. injection S as <- <-.
+      apply commit_views in C as (_ & _ & Hc); auto.
+Qed.
+
+(* the failure path of commit: nothing is committed, nothing pruned, nothing lost *)
+Lemma get_stable st h conc ans st' r : get st h conc ans = (st', r) -> stable st st'.
+Proof.
+  unfold get. destruct (alookup h (blocks st)) eqn:E.
+  - intros H; injection H as <- <-. red; auto.
+  - pose proof (fold_store_stable conc st) as Hs.
+    destruct ans as [b|]; intros H; injection H as <- <-; auto.
+    intros k x Hx. cbn. destruct (N.eqb_spec h k) as [<-|]; [congruence|]. now apply Hs.
+Qed.
+
+Lemma commit_inner_stable fetch cb : forall fuel st b st' r,
+  commit_inner fuel st fetch b cb = (st', r) -> stable st st'.
+Proof.
+  induction fuel as [|k IH]; cbn; intros st b st' r H.
+  - injection H as <- <-. red; auto.
+  - destruct (b_view b <=? b_view cb); [injection H as <- <-; red; auto|].
+    destruct (get st (b_parent b) [] (fetch (b_parent b))) as [st1 r1] eqn:G.
+    apply get_stable in G. destruct r1 as [p|]; [|injection H as <- <-; auto].
+    destruct (commit_inner k st1 fetch p cb) as [st2 r2] eqn:E. apply IH in E.
+    destruct r2; injection H as <- <-; eauto using stable_trans.
+Qed.
+
+Theorem commit_error_keeps : forall flt s tbl b s',
+  ah_keyed (s_store s) -> commit flt s tbl b = (s', CErr) ->
+  s_committed s' = s_committed s /\ prune_height (s_store s') = prune_height (s_store s) /\
+  stable (s_store s) (s_store s').
+Proof.
+  intros flt s tbl b s' Hk. unfold commit. destruct (commit_inner _ _ _ _ _) as [st1 r1] eqn:E.
+  destruct r1 as [l|]; [destruct (prune_to_height _ _ _); discriminate|].
+  intros H; injection H as <-. cbn. repeat split.
+  - now apply commit_inner_keyed in E as [_ ?].
+  - now apply commit_inner_stable in E.
+Qed.
